@@ -754,6 +754,14 @@ def run_pfile(G, part, d, cfgd, poly):
             par = None
         finally:
             os.chdir(cwd)
+        try:
+            # the reader's remove_duplicate_points=False: every piece's points and cells are kept as they are, one after the other
+            from fieldcompare.io.vtk import PVTUReader, PVTPReader
+            keep = (PVTPReader if poly else PVTUReader)(os.path.join(d, f"all.p{ext}"), remove_duplicate_points=False).read()
+            out["keep_duplicates"] = {"points": int(len(keep.domain.points)),
+                                      "cells": int(sum(len(keep.domain.connectivity(ct)) for ct in keep.domain.cell_types))}
+        except Exception as e:          # noqa: BLE001
+            out["keep_duplicates"] = {"error": f"{type(e).__name__}: {e}"}
         if whole is not None and par is not None:
             try:
                 from fieldcompare.mesh import MeshFieldsComparator
@@ -783,6 +791,12 @@ def check_pfile(ctx, G, part, cfgd, poly, out, case):
     elif out.get("comparator") is not True:
         ctx.violation("E4", f"{tag}: MeshFieldsComparator(parallel, whole) does not pass although the contents are equal: {out.get('comparator')}",
                       case, impl=out)
+    kd = out.get("keep_duplicates")
+    if kd is not None:
+        want = {"points": sum(len(p["points"]) for p in part["pieces"]), "cells": sum(len(p["cells"]) for p in part["pieces"])}
+        ctx.tie(f"T2 {tag} read with remove_duplicate_points=False keeps every piece's points and cells")
+        if kd != want:
+            ctx.violation("E4", f"{tag}: read with remove_duplicate_points=False gives {kd}, the pieces hold {want}", case, impl=kd)
 
 
 def stream_pfiles(ctx, n_vtu, n_vtp):
